@@ -55,6 +55,8 @@ def run(sim):
             v = (b"v%d:" % counter) + sim.draw_blob(size)[:size]
             if shelf:
                 v = (counter, v)
+            elif sim.draw_bool(0.15, "empty_value"):
+                v = b""   # a zero-length value is a legal value (and a zero-length file on disk)
             ops.append(("set", k, v))
             present.add(k)
             maxlen = max(maxlen, size)
